@@ -22,6 +22,8 @@ def make_line(case, rnd=None, lang_texts=None):
     for k in ('header_a', 'header_b'):
         if case.get(k) is not None:
             d[k] = case[k]
+    if case.get('share_rows'):
+        d['share_rows'] = True
     d.update(texts)
     return 'query ' + json.dumps(d, ensure_ascii=False, separators=(',', ':'))
 
